@@ -123,7 +123,11 @@ SCheck(k) ==
   /\ wroteDead' = (wroteDead \/ (~(Fix /\ ~Live(k)) /\ lclosed[k] /\ sm[k] \in issuedAfterDead))
   \* a request that the client holds back from a connection it knows to be dead has been saved from the race with the
   \* close: from here on it is the client's job to get it to the server (same obligation as a call issued after the close)
-  /\ issuedAfterDead' = IF Fix /\ ~Live(k) THEN issuedAfterDead \cup {sm[k]} ELSE issuedAfterDead
+  \* -- unless another connection has been closed by the server and the client has not noticed yet: then the call still
+  \* races with THAT close (found with 3 requests: the request is handed to the live sender, whose connection the server
+  \* has already closed; had it been written there it would have been lost just the same)
+  /\ issuedAfterDead' = IF Fix /\ ~Live(k) /\ (\A j \in 1..nconn : pclosed[j] => lclosed[j])
+                           THEN issuedAfterDead \cup {sm[k]} ELSE issuedAfterDead
   /\ UNCHANGED <<isClosed, cur, nconn, lclosed, pclosed, connDone, sm, rpc, sendQ, failQ, recvq, srvGot, replied, cpc, dialHealthy>>
 SWrite(k) ==     \* conn.Write(m.req): fails on a locally closed connection; on a connection the peer has closed it may
                  \* fail (reset) or "succeed" with the request lost
@@ -180,7 +184,12 @@ Internal == \/ \E r \in Reqs : ReConnectDial(r) \/ ReConnectNoDial(r) \/ EnqHook
             \/ \E k \in Conns : STop(k) \/ SPollFail(k) \/ SInner(k) \/ SWake(k) \/ SCheck(k) \/ SWrite(k) \/ SRequeue(k) \/ SClose(k) \/ SRedial(k)
                                 \/ RNotice(k) \/ RSignal(k)
             \/ \E k \in Conns, r \in Reqs : Reply(k, r)
-Next == Internal \/ (\E r \in Reqs : CallStart(r) \/ CallTimeout(r)) \/ (\E k \in Conns : STick(k) \/ ServerClose(k))
+\* maximal progress for the call timeout only: it is orders of magnitude longer than any internal step, so in the design
+\* model it fires when nothing internal can happen any more (a stranded call); without this a "timed-out" request left in
+\* the one-slot failure queue while a live sender was about to take it is an artefact (found with 3 requests).  Trace
+\* validation uses CallTimeout itself, at whatever moment the real run reports it.
+Next == Internal \/ (\E r \in Reqs : CallStart(r)) \/ (~ENABLED Internal /\ \E r \in Reqs : CallTimeout(r))
+        \/ (\E k \in Conns : STick(k) \/ ServerClose(k))
 Spec == Init /\ [][Next]_vars
 
 \* ---------------------------------------------------------------- properties (C11)
